@@ -77,6 +77,14 @@ def do(obj, op):
         obj.auto_ack = op[1]
     elif n == "listen":
         obj.listen = op[1]
+    elif n == "get_auto_ack":
+        obj.get_auto_ack(op[1])
+    elif n == "power":
+        obj.power = op[1]
+
+
+# calls that change nothing the property speaks about; mixed into the random walks only
+NEUTRAL_OPS = [["get_auto_ack", 0], ["get_auto_ack", 2], ["get_auto_ack", 5], ["power", False], ["power", True]]
 
 
 def obj_state(obj):
@@ -290,9 +298,24 @@ def run_shard(ctx, kind="full", prefix=""):
             break
         aw = rng.choice([3, 4, 5])
         L = rng.randrange(5, 31)
-        path = [rng.choice(ops) for _ in range(L)]
+        walk_ops = ops + (NEUTRAL_OPS if kind == "full" else NEUTRAL_OPS[3:])
+        path = [rng.choice(walk_ops) for _ in range(L)]
+        # the probes need a powered radio (send() does not power the radio up: documented usage
+        # is listen = False first); `listen` assignments power it up themselves
+        on = True
+        judged = []
+        for i, o in enumerate(path):
+            if o[0] == "power":
+                on = o[1]
+            elif o[0] == "listen":
+                on = True
+            if o[0] == "listen" or (o[0] == "open_tx_pipe" and on):
+                judged.append(i + 1)
+        if not on:
+            path.append(["power", True])
+        L = len(path)
         # every prefix ending in a judged op gets probed
-        cut = [i + 1 for i, o in enumerate(path) if o[0] in ("listen", "open_tx_pipe")]
+        cut = judged
         for c in rng.sample(cut, min(len(cut), 4)) + [L]:
             ctx.evaluations += 1
             execute(ctx, {"kind": kind, "aw": aw, "ops": path[:c]}, prefix=prefix)
